@@ -12,6 +12,7 @@ CONSTANTS
   Inter = {TRUE}
   Multis = {FALSE, TRUE}
   Muts = {0}
+  DefInts = {FALSE}
   RouteIds = {1}
   Reconfs = {0}
   Rounds = 1
